@@ -301,6 +301,51 @@ func observe(U int, ret uint64) *Obs {
 	return o
 }
 
+// sqlView reads the groupIndex table itself (hook) and through SelectValidGroups, and compares both with
+// the list (genesis first): every row is (0x-hex id of the i-th group, i); no two rows share a height;
+// unless rows were lost and no restart followed, every listed group has its row and
+// SelectValidGroups(0) (hash of every group with dismissheight > 0, by groupheight descending - what
+// consensus loads at start-up) is the list backwards.
+func sqlView(l []G, lossy bool) []string {
+	var bad []string
+	rows, err := mysql.VerifGroupIndexRows()
+	if err != nil {
+		return []string{"cannot read groupIndex: " + err.Error()}
+	}
+	want := map[string]uint64{}
+	for i, g := range l {
+		want[common.ToHex(idBytes(g.Id))] = uint64(i)
+	}
+	seenH := map[uint64]string{}
+	for _, r := range rows {
+		h, ok := want[r.Hash]
+		switch {
+		case !ok:
+			bad = append(bad, fmt.Sprintf("groupIndex has a row (hash %s, groupheight %d) that is not a group of the list %v", r.Hash, r.GroupHeight, ids(l)))
+		case h != r.GroupHeight:
+			bad = append(bad, fmt.Sprintf("groupIndex row %s has groupheight %d, the group is number %d of the list", r.Hash, r.GroupHeight, h))
+		}
+		if o, dup := seenH[r.GroupHeight]; dup {
+			bad = append(bad, fmt.Sprintf("groupIndex has two rows for groupheight %d: %s and %s", r.GroupHeight, o, r.Hash))
+		}
+		seenH[r.GroupHeight] = r.Hash
+	}
+	if !lossy {
+		if len(rows) != len(l) {
+			bad = append(bad, fmt.Sprintf("groupIndex has %d rows, the list has %d groups %v", len(rows), len(l), ids(l)))
+		}
+		valid := mysql.SelectValidGroups(0)
+		ok := len(valid) == len(l)
+		for i := 0; ok && i < len(valid); i++ {
+			ok = valid[i] == common.ToHex(idBytes(l[len(l)-1-i].Id))
+		}
+		if !ok {
+			bad = append(bad, fmt.Sprintf("SelectValidGroups(0) = %v, the list backwards is %v", valid, ids(l)))
+		}
+	}
+	return bad
+}
+
 // ---- store life cycle ----
 // freshStore gives the next history an empty store: every key of the "group" LevelDB prefix and every
 // sqlite groupIndex row is deleted, then initGroupChain() runs (it finds no "gcurrent" and saves genesis).
@@ -321,13 +366,12 @@ func freshStore(U int) {
 			panic(err)
 		}
 	}
-	for id := 1; id <= 9; id++ {
-		if err := mysql.DeleteGroup(idBytes(uint64(id))); err != nil {
-			panic(err)
-		}
+	// the table is emptied with the harness's own SQL (hook), not with the DeleteGroup under test
+	if err := mysql.VerifGroupIndexReset(); err != nil {
+		panic(err)
 	}
-	if n := mysql.CountGroups(); n != 0 {
-		panic(fmt.Sprint("sqlite not empty after reset: ", n))
+	if rows, err := mysql.VerifGroupIndexRows(); err != nil || len(rows) != 0 {
+		panic(fmt.Sprint("sqlite not empty after reset: ", rows, err))
 	}
 	reinit(false)
 }
@@ -406,8 +450,8 @@ func apply(o Op) (ret uint64) {
 		}
 		return 2
 	case opDrop:
-		for _, id := range o.Ids {
-			if err := mysql.DeleteGroup(idBytes(id)); err != nil {
+		for _, id := range o.Ids { // the harness's own SQL: an environment event must not depend on the code under test
+			if err := mysql.VerifGroupIndexDeleteRow(idBytes(id)); err != nil {
 				panic(err)
 			}
 		}
@@ -614,6 +658,11 @@ func runSeq(res *hx.Result, U int, ops []Op) (sr seqResult) {
 		}
 		if !sh.corrupt && (ob.SqN > n || (ob.SqN != n && !sh.unsettled)) {
 			viol(i, "sqlite-index", fmt.Sprintf("sqlite has %d rows, the list has %d groups", ob.SqN, n))
+		}
+		if !sh.corrupt {
+			for _, b := range sqlView(sh.l, sh.unsettled) {
+				viol(i, "sqlite-index", b)
+			}
 		}
 		if o.K == opRestart && !ob.sameState(prev, !wasUnsettledBefore && !sh.corrupt) {
 			viol(i, "restart-changes-observables", "before: "+prev.coq()+" after: "+ob.coq())
@@ -1307,7 +1356,6 @@ func runKeys(res *hx.Result, kc *hx.Cases, name string, id []byte) {
 	byId := gc.GetGroupById(id) != nil
 	byH := gc.GetGroupByHeight(1) != nil
 	lastIs := bytes.Equal(gc.LastGroup().Id, id)
-	mysql.DeleteGroup(id) // freshStore only knows the rows of the numbered ids
 	res.Count(fmt.Sprintf("keyspace:%s:ret=%d,count=%d,by-id=%v,height1=%v", name, ret, gc.Count(), byId, byH), "keyspace;"+name, true)
 	kc.Add(fmt.Sprintf("(%s, %s, %d, %d, %s, %s, %s)", coqBytes(g0), coqBytes(id), ret, gc.Count(), hx.CoqBool(byId), hx.CoqBool(byH), hx.CoqBool(lastIs)),
 		map[string]interface{}{"scenario": name, "id": fmt.Sprintf("%x", id), "result": ret, "count": gc.Count(), "found_by_id": byId, "height_1_found": byH})
@@ -1533,7 +1581,7 @@ func main() {
 		res.Note("exhaustive: every history of length 5 over {add 2 after last, add 3 after last, remove-last, remove-from-ancestor(0), restart}")
 	}
 	res.Note("restart(cold) = close the shared LevelDB and the joined-groups DB, then initGroupChain() on the same files; restart(warm) = initGroupChain() on the still-open store (exhaustive histories use warm, random ones cold with probability 1/2); crashes between the individual Puts inside save/remove are outside the property as stated and are not generated")
-	res.Note("fork-switch = newGroupChainFork(chain group at the height), the fork groups stored with insertGroup (verifyGroup, which needs the block chain, is not called), the real triggerOnChain, destroy; lose-sqlite-rows = mysql.DeleteGroup of the ids behind the chain's back (the situation refreshCache repairs at the next start)")
+	res.Note("fork-switch = newGroupChainFork(chain group at the height), the fork groups stored with insertGroup (verifyGroup, which needs the block chain, is not called), the real triggerOnChain, destroy; lose-sqlite-rows = DELETE of the ids' rows with the harness's own SQL behind the chain's back (the situation refreshCache repairs at the next start)")
 
 	for i := 0; i < a.N; i++ {
 		runCase(7, genSeq(rng, 7))
